@@ -131,6 +131,7 @@ class TWorld(object):
     self.p = params
     self.lp = vloop.loop()
     self.net = simnet.new_net()
+    self.net.max_recv, self.net.max_send = params.get('max_recv'), params.get('max_send')
     self.server_log = []
     self.H = hello()
     world.SHIMS['thriftmux'].randint_domain = lambda a, b: [a]
@@ -493,6 +494,8 @@ def scenarios(tier):
                'peer_script': {'ack_discards': True}}))
   out.append(('send buffer full, a request with a deadline queued BEHIND another queued request, then it drains; one more request',
               {'ops': [['block'], ['req', 'x'], ['req', 'b'], ['req', 'a', True], ['unblock'], ['req', 'c']], 'max_adversarial': 1, '_bound': 2}))
+  out.append(('3 requests, 2 with deadlines; the kernel hands out 4 bytes per recv and takes 5 per send',
+              {'ops': [['req', 'a', True], ['req', 'b'], ['req', 'c', True]], 'max_adversarial': 1, 'max_recv': 4, 'max_send': 5, '_bound': 2}))
   out.append(('Open() called again while a request is unanswered',
               {'ops': [['req', 'a', True], ['open'], ['req', 'b'], ['req', 'c']], 'max_adversarial': 0, '_bound': 2}))
   out.append(('send buffer full while 3 requests queue up, then drains; one more request',
